@@ -20,7 +20,7 @@ def c02(tier):
         Harness('VHarnessAmountChecked', 'cashu', ['cashu/zz_verif_cashu.go'], bounds='<= 4 outputs, amounts full 64 bit', must_reach=('ok', 'overflow')),
     ]
 
-MINT_FILES = ['mint/zz_verif_env.go', 'mint/zz_verif_swap.go', 'mint/zz_verif_melt.go', 'mint/zz_verif_quotes.go', 'mint/zz_verif_minttokens.go', 'mint/zz_verif_query.go', 'mint/zz_verif_hook.go', 'mint/zz_verif_crash.go', 'mint/zz_verif_sched.go', 'mint/zz_verif_sigall.go', 'cashu/nuts/nut11/zz_verif_p2pk.go', 'mint/storage/sqlite/zz_verif_db.go']
+MINT_FILES = ['mint/zz_verif_env.go', 'mint/zz_verif_swap.go', 'mint/zz_verif_melt.go', 'mint/zz_verif_quotes.go', 'mint/zz_verif_minttokens.go', 'mint/zz_verif_query.go', 'mint/zz_verif_hook.go', 'mint/zz_verif_crash.go', 'mint/zz_verif_sched.go', 'mint/zz_verif_keysets.go', 'mint/zz_verif_sigall.go', 'cashu/nuts/nut11/zz_verif_p2pk.go', 'mint/storage/sqlite/zz_verif_db.go']
 MINT_MODELS = ('std', 'crypto', 'json', 'sql', 'mint', 'threads')
 MINT_ASSUME = COMMON_ASSUME + [
     'keysets of the harness mint hold the denominations {1, 2, 2^63} only (the 60-entry tables are cut; the arithmetic kernels are checked at full width separately)',
@@ -112,6 +112,13 @@ P2PK_ASSUME = COMMON_ASSUME + [
     'clock: the locktime is at least 10 s away from now, a harness run takes < 5 s',
     'nut10 (de)serialisation summarised as an injective constructor (DESIGN.md 4.6)']
 
+def c04(tier):
+    return [mint_h('VHarnessVerifyProofs', '1 proof: genuine (keyset / denomination symbolic) / arbitrary / 6 single-field mutation classes of a genuine proof; 2 keysets x 3 denominations', must_reach=('genuine', 'mutated'))]
+def c09(tier):
+    F = ['crypto/zz_verif_bdhke.go', 'crypto/zz_verif_derive.go']
+    return [mint_h('VHarnessSignAndFees', '1 arbitrary output against 2 keysets; fee of 0..3 inputs over both keysets, ppk < 2^32', must_reach=('signed', 'refused')),
+            mint_h('VHarnessLoadMint', 'fresh start, restart with/without rotation, runtime rotation, restart: fees symbolic (< 4096), all 60 keys of every keyset compared', summaries=('h2c', 'nut10-none', 'loadmint-env'), must_reach=('done',), timeout_s=1200),
+            Harness('VHarnessGenerateKeyset', 'crypto', F, models=('std', 'crypto', 'json'), crypto_mode='euf', bounds='every 32-byte seed, every derivation index < 2^31; all 60 keys and the id', must_reach=('done',))]
 def c10(tier):
     kw = dict(models=('std', 'crypto', 'json'), crypto_mode='alg')
     return [Harness('VHarnessBDHKE', 'crypto', ['crypto/zz_verif_bdhke.go'], summaries=('h2c',), bounds='every secret (string of any length), every blinding factor, every key: all symbolic', must_reach=('done',), **kw),
@@ -134,6 +141,8 @@ C10_ASSUME = COMMON_ASSUME + [
 ]
 
 PROPS = {
+    'C04': dict(harnesses=c04, level='bounded symbolic verification: soundness formula, completeness and explicit mutation classes', assumptions=MINT_ASSUME + ['unforgeability stated explicitly: an arbitrary C is not the valid signature of its secret under one of the mint keys', 'distinct denominations / keysets have distinct private keys'], outside=['BIP-32 derivation collisions', 'hash-to-curve collisions']),
+    'C09': dict(harnesses=c09, level='bounded symbolic verification of LoadMint / RotateKeyset / GenerateKeyset executed whole over the storage model', assumptions=MINT_ASSUME + C11_ASSUME, outside=['BIP-32 itself', 'file system, migration runner (InitSQLite summarised as: returns the database of that directory)']),
     'C11': dict(harnesses=c11, level='bounded symbolic verification: equality with reference terms written from NUT-00/02/13 over the same uninterpreted primitives', assumptions=C11_ASSUME, outside=['the primitives themselves (library code)', 'keyset ids shorter than 8 bytes (DeriveKeysetPath indexes 8 bytes)']),
     'C10': dict(harnesses=c10, level='bounded symbolic verification over an algebraic group model: completeness identities and equivalence of the accept condition with the NUT-12 equation', assumptions=C10_ASSUME,
                 outside=['random-oracle soundness of the Chaum-Pedersen proof (that no other (e,s) satisfies the equation): cryptographic, not claimed', 'edge scalars 0 and >= n beyond reduction mod n']),
